@@ -288,5 +288,65 @@ impl Method for TSI {
 	proof { let am = mk(rabs(momentum@)); assert(tsi_parts(old(self), value__r, self, &r, momentum, am, tmp0__, tmp1__)); }
 //@end
 }
+
+// C08: a recurrence seeded with v and fed v stays at v (fixed point), one inductive step each
+pub proof fn ema_const_step(pre: EMA, v: R, post: EMA, out: R)
+	requires pre.inv(), pre.value@ == v@, EMA::step(&pre, &v, &post, &out)
+	ensures post.value@ == v@, out@ == v@, post.inv()
+{
+	assert(pre.alpha@ * (v@ - v@) == 0real) by(nonlinear_arith);
+}
+pub proof fn dma_const_step(pre: DMA, v: R, post: DMA, out: R)
+	requires pre.inv(), pre.ema.value@ == v@, pre.dma.value@ == v@, DMA::step(&pre, &v, &post, &out)
+	ensures post.ema.value@ == v@, post.dma.value@ == v@, out@ == v@
+{
+	let mid = choose|mid: ValueType| #[trigger] dma_parts(&pre, &v, &post, &out, mid);
+	ema_const_step(pre.ema, v, post.ema, mid);
+	ema_const_step(pre.dma, mid, post.dma, out);
+}
+pub proof fn tma_const_step(pre: TMA, v: R, post: TMA, out: R)
+	requires pre.inv(), pre.dma.ema.value@ == v@, pre.dma.dma.value@ == v@, pre.tma.value@ == v@, TMA::step(&pre, &v, &post, &out)
+	ensures out@ == v@, post.tma.value@ == v@
+{
+	let mid = choose|mid: ValueType| #[trigger] tma_parts(&pre, &v, &post, &out, mid);
+	dma_const_step(pre.dma, v, post.dma, mid);
+	ema_const_step(pre.tma, mid, post.tma, out);
+}
+pub proof fn dema_const_step(pre: DEMA, v: R, post: DEMA, out: R)
+	requires pre.inv(), pre.ema.value@ == v@, pre.dma.value@ == v@, DEMA::step(&pre, &v, &post, &out)
+	ensures out@ == v@, post.ema.value@ == v@, post.dma.value@ == v@
+{
+	let (e, d) = choose|e: ValueType, d: ValueType| #[trigger] dema_parts(&pre, &v, &post, &out, e, d);
+	ema_const_step(pre.ema, v, post.ema, e);
+	ema_const_step(pre.dma, e, post.dma, d);
+}
+pub proof fn tema_const_step(pre: TEMA, v: R, post: TEMA, out: R)
+	requires pre.inv(), pre.ema.value@ == v@, pre.dma.value@ == v@, pre.tma.value@ == v@, TEMA::step(&pre, &v, &post, &out)
+	ensures out@ == v@
+{
+	let (e, d, t) = choose|e: ValueType, d: ValueType, t: ValueType| #[trigger] tema_parts(&pre, &v, &post, &out, e, d, t);
+	ema_const_step(pre.ema, v, post.ema, e);
+	ema_const_step(pre.dma, e, post.dma, d);
+	ema_const_step(pre.tma, d, post.tma, t);
+}
+pub proof fn rma_const_step(pre: RMA, v: R, post: RMA, out: R)
+	requires pre.inv(), pre.prev_value@ == v@, RMA::step(&pre, &v, &post, &out)
+	ensures out@ == v@, post.prev_value@ == v@
+{
+	let a = pre.alpha@;
+	assert(a * v@ + (1real - a) * v@ == v@) by(nonlinear_arith);
+}
+// TSI on a constant stream: momentum is 0, both smoothed series stay 0, the guarded quotient returns 0
+pub proof fn tsi_const_step(pre: TSI, v: R, post: TSI, out: R)
+	requires pre.inv(), pre.last_value@ == v@, pre.ema11.value@ == 0real, pre.ema12.value@ == 0real, pre.ema21.value@ == 0real, pre.ema22.value@ == 0real,
+		TSI::step(&pre, &v, &post, &out)
+	ensures out@ == 0real, post.ema11.value@ == 0real, post.ema12.value@ == 0real, post.ema21.value@ == 0real, post.ema22.value@ == 0real, post.last_value@ == v@
+{
+	let (m, am, a1, b1) = choose|m: ValueType, am: ValueType, a1: ValueType, b1: ValueType| #[trigger] tsi_parts(&pre, &v, &post, &out, m, am, a1, b1);
+	ema_const_step(pre.ema11, m, post.ema11, a1);
+	ema_const_step(pre.ema12, a1, post.ema12, post.ema12.value);
+	ema_const_step(pre.ema21, am, post.ema21, b1);
+	ema_const_step(pre.ema22, b1, post.ema22, post.ema22.value);
+}
 } // verus!
 fn main() {}
